@@ -1535,6 +1535,25 @@ Library read_oas(const char* filename, double unit, double tolerance, ErrorCode*
                 library.name[2] = 'B';
                 library.name[3] = 0;
 
+                // Property names and strings given by reference number are resolved first: the properties of
+                // TEXTSTRING records are copied to the labels below
+                Property** prop_p = unfinished_property_name.items;
+                for (uint64_t i = unfinished_property_name.count; i > 0; i--) {
+                    Property* property = *prop_p++;
+                    ByteArray* prop_name = property_name_table.items + (uint64_t)property->name;
+                    property->name = copy_string((char*)prop_name->bytes, NULL);
+                }
+                PropertyValue** prop_value_p = unfinished_property_value.items;
+                for (uint64_t i = unfinished_property_value.count; i > 0; i--) {
+                    PropertyValue* property_value = *prop_value_p++;
+                    ByteArray* prop_string =
+                        property_value_table.items + (uint64_t)property_value->unsigned_integer;
+                    property_value->type = PropertyType::String;
+                    property_value->count = prop_string->count;
+                    property_value->bytes = (uint8_t*)allocate(prop_string->count);
+                    memcpy(property_value->bytes, prop_string->bytes, prop_string->count);
+                }
+
                 uint64_t c_size = library.cell_array.count;
                 Map<Cell*> map = {};
                 map.resize((uint64_t)(2.0 + 10.0 / GDSTK_MAP_CAPACITY_THRESHOLD * c_size));
@@ -1610,22 +1629,6 @@ Library read_oas(const char* filename, double unit, double tolerance, ErrorCode*
                 }
                 map.clear();
 
-                Property** prop_p = unfinished_property_name.items;
-                for (uint64_t i = unfinished_property_name.count; i > 0; i--) {
-                    Property* property = *prop_p++;
-                    ByteArray* prop_name = property_name_table.items + (uint64_t)property->name;
-                    property->name = copy_string((char*)prop_name->bytes, NULL);
-                }
-                PropertyValue** prop_value_p = unfinished_property_value.items;
-                for (uint64_t i = unfinished_property_value.count; i > 0; i--) {
-                    PropertyValue* property_value = *prop_value_p++;
-                    ByteArray* prop_string =
-                        property_value_table.items + (uint64_t)property_value->unsigned_integer;
-                    property_value->type = PropertyType::String;
-                    property_value->count = prop_string->count;
-                    property_value->bytes = (uint8_t*)allocate(prop_string->count);
-                    memcpy(property_value->bytes, prop_string->bytes, prop_string->count);
-                }
                 goto CLEANUP;
             } break;
             case OasisRecord::CELLNAME_IMPLICIT: {
